@@ -71,7 +71,10 @@ def _work(desc):
             res["n_internal"] += 1
             with np.errstate(invalid="ignore"):
                 exc = np.maximum(xl - x, x - xu)
-            allow = 8.0 * EPS * np.maximum.reduce([np.ones_like(x), np.abs(x), np.where(np.isfinite(xl), np.abs(xl), 0), np.where(np.isfinite(xu), np.abs(xu), 0)])
+            # rounding of the step arithmetic is relative to the size of the whole vector (rotations and projections in the
+            # subsolvers mix the coordinates), not to the coordinate that ends up next to its bound
+            allow = 8.0 * EPS * max(1.0, float(np.max(np.abs(x), initial=0.0)), float(np.max(np.where(np.isfinite(xl), np.abs(xl), 0.0), initial=0.0)),
+                                    float(np.max(np.where(np.isfinite(xu), np.abs(xu), 0.0), initial=0.0)))
             w = float(np.max(np.where(np.isnan(exc), 0.0, exc), initial=0.0))
             res["worst_excursion"] = max(res["worst_excursion"], w)
             if np.any(exc > allow):
